@@ -121,9 +121,17 @@ class Action(BaseForm):
             if v == left.arguments()[-1]:
                 return left._ufl_expr_reconstruct_(operand, v=right)
 
-        return super().__new__(cls)
+        # construct and initialise a new Action object
+        self = super().__new__(cls)
+        self._init(left, right)
+        return self
 
     def __init__(self, left, right):
+        """Initialise."""
+        # Python calls __init__ also on an existing Action returned from
+        # __new__ (Action(coargument, A) -> A): nothing must be reset here
+
+    def _init(self, left, right):
         """Initialise."""
         BaseForm.__init__(self)
 
